@@ -290,7 +290,11 @@ class Ctx:
               "coverage": cov, "assumptions": self.assumptions,
               "wall_s": round(time.time() - self.t0, 2), "violations": len(self.violations),
               "known_findings_hit": [k for k, _ in self.known_hits]}
-        json.dump(ev, open(os.path.join(VERIF, "evidence", f"{self.prop}.json"), "w"), indent=1, default=str)
+        # evidence describes runs against /repo itself; a run against a scratch worktree (VERIF_REPO) must
+        # not overwrite it
+        ev_dir = os.path.join(VERIF, "evidence") if os.path.realpath(REPO) == "/repo" else os.path.join(CACHE, "evidence-scratch")
+        os.makedirs(ev_dir, exist_ok=True)
+        json.dump(ev, open(os.path.join(ev_dir, f"{self.prop}.json"), "w"), indent=1, default=str)
         if self.violations:
             seen = set()
             for path, what, no_input in self.violations[:20]:
